@@ -12,3 +12,7 @@ CONSTANTS
   ForwardCountedOnce = FALSE
   SourceKeyFromMapping = FALSE
   WithFail = FALSE
+  MaxFlight = 0
+  OfferAtomic = TRUE
+  WithDropped = FALSE
+  DroppedChecksQuota = TRUE
